@@ -431,6 +431,7 @@ func run(r *vk.Runner) {
 	cases = append(cases, gj5s.ServiceCases()...)
 	cases = append(cases, gj5s.TopicCases()...)
 	cases = append(cases, gj5s.PipelineCases()...)
+	cases = append(cases, gj5s.OddNameCases()...)
 	if !r.Quick() {
 		// every object of the field-pair programs as the body and the response of a method
 		for _, c := range gj5s.PairFieldCases() {
